@@ -156,6 +156,31 @@ def ugrid_expected(recipe: dict) -> tuple[list, list]:
     return names, roles
 
 
+def add_edge_coords(ds: xr.Dataset, built: G.Built, state: dict, how: str) -> xr.Dataset:
+    """UGRID: characteristic edge coordinates (`edge_coordinates` of the mesh variable), as data variables
+    (`how == 'vars'`) or as xarray coordinates (`'coords'`).  They are geometry whether or not the mesh declares an
+    edge dimension or carries an edge connectivity table: without either, the edge dimension of the dataset is the
+    one these two variables span.  Values: the edge midpoints (sums of dyadic node coordinates halved: exact)."""
+    if built.conv != 'ugrid':
+        raise ValueError('edge coordinates need a UGRID mesh')
+    nodes = built.recipe['nodes']
+    edim = built.extra['names']['edge_dim']
+    ex = np.array([(float(nodes[a][0]) + float(nodes[b][0])) / 2 for a, b in built.extra['edges']], dtype='f8')
+    ey = np.array([(float(nodes[a][1]) + float(nodes[b][1])) / 2 for a, b in built.extra['edges']], dtype='f8')
+    exv = xr.Variable([edim], ex, attrs={'standard_name': 'longitude'})
+    eyv = xr.Variable([edim], ey, attrs={'standard_name': 'latitude'})
+    if how == 'coords':
+        ds = ds.assign_coords({'Mesh2_edge_x': exv, 'Mesh2_edge_y': eyv})
+    else:
+        ds = ds.assign({'Mesh2_edge_x': exv, 'Mesh2_edge_y': eyv})
+    mesh = ds.variables[state['expected'][0]]
+    mesh.attrs = dict(mesh.attrs, edge_coordinates='Mesh2_edge_x Mesh2_edge_y')
+    exp = list(state['expected'])
+    k = exp.index('Mesh2_face_x') if 'Mesh2_face_x' in exp else len(exp)
+    state['expected'] = exp[:k] + ['Mesh2_edge_x', 'Mesh2_edge_y'] + exp[k:]
+    return ds
+
+
 def initial_state(built: G.Built) -> dict:
     conv = built.conv
     st = {'conv': conv, 'subclass': False, 'kwargs': {}, 'valid_roles': []}
@@ -349,6 +374,11 @@ def apply_edit(ds: xr.Dataset, built: G.Built, state: dict, e: dict) -> xr.Datas
                 new = np.nan
             if e.get('how') == 'negzero':
                 new = -0.0 if (old == 0 and not np.signbit(old)) else (0.0 if old != 0 or np.signbit(old) else -0.0)
+            if e.get('how') == 'ulp':
+                # the smallest change the type of the values can express: the next representable number
+                if not np.isfinite(old):
+                    raise ValueError('no next representable number')
+                new = np.nextafter(old, vals.dtype.type(np.inf))
         else:
             others = [x for x in flat.tolist() if x != old]
             new = others[k % len(others)] if others and e.get('how') != 'plus1' else old + 1
@@ -522,10 +552,16 @@ def materialise(case: dict):
     built = G.build(case['recipe'])
     ds = built.ds
     state = initial_state(built)
+    if case.get('edge_coords'):
+        ds = add_edge_coords(ds, built, state, case['edge_coords'])
     if case.get('enrich', True):
         enrich(ds, state['expected'])
     if case.get('netcdf'):
         ds = netcdf_roundtrip(ds)
+    for name, dt in (case.get('enc_dtypes') or {}).items():
+        # the type the variable is STORED with (what xarray keeps in `encoding['dtype']` after opening a file, and
+        # what a user sets to save disk space) is not the type of the values held in memory
+        ds.variables[name].encoding['dtype'] = np.dtype(dt)
     for e in case.get('edits', []):
         ds = apply_edit(ds, built, state, e)
     if case.get('stabilise', True):
